@@ -25,21 +25,23 @@ DEVS = {
     "SetErrorExtraResponse": ("D_C06_SetErrorExtraResponse", "C06"),
     "GobZero": ("D_C05_GobZero", "C05"),
     "IncMetaNotSaved": ("D_C05_IncMetaNotSaved", "C05"),
+    "DeleteRecreateResurrects": ("D_C05_DeleteRecreateResurrects", "C05"),
     "PreEpochInvisible": ("D_C30_PreEpochInvisible", "C30"),
+    "StaleExpiryIndex": ("D_C30_StaleExpiryIndex", "C30"),
 }
 FID2DEV = {v[0]: k for k, v in DEVS.items()}
 
-STATE_INV = "TypeOK Normalized ExistsIffNonEmpty NoPending NoStaleFlags DiskFaithful"
+STATE_INV = "TypeOK Normalized ExistsIffNonEmpty NoPending NoStaleFlags DiskFaithful IndexFresh"
 PROPS = ("Returns OneResponsePerSwamp SetStatusTruth SetWrites SwampErrorsNoEffect FailedIncrement GoodIncrement "
          "ReadsArePure ErrorsNoEffect CountIsSize RemovalsAreLegal SetSemantics CloseReloadIdentity ShiftExpiredSound "
-         "ExpiryVisible DvSound")
+         "ExpiryVisible PatchExpiredSound FilterAgrees IndexAgrees PatchMetaEffect DvSound")
 
 # where TLC must find each deviation (family, depth): non-vacuity of the properties
 WITNESS_SCOPE = {
     "U32DeleteDeadlock": ("u32", 2), "U32DeleteWrongType": ("u32", 2), "StickyDirty": ("set", 2),
     "IncVoidSideEffect": ("inc", 2), "EmptySwampExists": ("inc", 2), "VoidNoClear": ("set", 2),
     "SetSliceMerges": ("u32", 2), "U32PushWrongType": ("u32", 2), "SetErrorExtraResponse": ("set", 1),
-    "GobZero": ("reload", 2), "IncMetaNotSaved": ("reload", 3), "PreEpochInvisible": ("expiry", 2),
+    "GobZero": ("reload", 2), "IncMetaNotSaved": ("reload", 2), "DeleteRecreateResurrects": ("resurrect", 6), "PreEpochInvisible": ("expiry", 2), "StaleExpiryIndex": ("expiry", 3),
 }
 
 
